@@ -604,7 +604,7 @@ fn main() {
         "sections": sections,
         "items": items_json,
         "obligations": obls,
-        "canaries": unit.canaries.iter().map(|c| json!({"name": c.name, "expect": c.expect, "from": c.from, "to": c.to})).collect::<Vec<_>>(),
+        "canaries": unit.canaries.iter().map(|c| json!({"name": c.name, "expect": c.expect, "from": c.from, "to": c.to, "nth": c.nth})).collect::<Vec<_>>(),
         "properties": unit.properties,
     });
     std::fs::write(format!("{out_prefix}.rs"), &out).unwrap();
